@@ -14,7 +14,7 @@ DEFAULT_PROFILE: Dict[str, Any] = {
     "max_steps": 30,
     "ops": {"spawn": 8, "tick": 6, "gate": 6, "settle": 2, "cancel": 2, "cancel_group": 1, "cancel_all": 0.3,
             "flush": 1, "close": 0.3, "lock": 0.3, "unlock": 0.3, "stop": 1, "until_closed": 0.2,
-            "bad_spawn": 0, "bad_pool": 0, "set_size": 0, "new_pool": 0, "abandon": 0},
+            "bad_spawn": 0, "bad_pool": 0, "set_size": 0, "new_pool": 0, "abandon": 0, "abandon_uc": 0},
     "kinds": ["apply", "apply", "map", "map", "starmap", "doublestarmap"],
     "max_num": 5,
     "max_elems": 6,
@@ -248,7 +248,7 @@ def gen_op(d: D, prof: dict, name: str, depth: int = 0) -> dict:
     if name == "gate":
         op["k"] = d.i(0, 7)
         return op
-    if name == "abandon":
+    if name in ("abandon", "abandon_uc"):
         op["k"] = d.i(0, 3)
         return op
     op["pool"] = d.i(0, np_ - 1)
